@@ -147,7 +147,16 @@ class TraceExecutor(Executor):
         self.events.append(("meas_basis", q_address, instr.imm0.value, instr.imm1.value, instr.imm2.value, instr.imm3.value, m))
         self._set_register(app_id, instr.creg, m)
 
+    WAITING = "waiting"
+
     def _do_wait(self):
+        if getattr(self, "yield_on_wait", False):
+            # cooperative mode: hand control back to whoever drives execute_subroutine (several subroutines may be
+            # suspended at once)
+            def once():
+                yield self.WAITING
+
+            return once()
         if self.wait_hook is None:
             raise WouldBlock("wait with no responder")
         self.wait_hook()
